@@ -152,6 +152,15 @@ CLAIMED["C19"] = (
     "peak location compared inside Coq. Morphology extensivity, [0,1] ranges, rescaling providers, curry adapters, loader glue, "
     "scale covariance of the scipy-backed converters: oracle.",
     "deep embedding + mutual induction in Coq + in-Coq expression correspondence")
+CLAIMED["C13"] = (
+    "Theorems (Coq): the data-frame layout is z, y, x, zvec, yvec, xvec followed by the features in order, a feature named like a "
+    "coordinate column is rejected, and splitting that layout by name returns exactly the features (column-structure round trip, "
+    "any number of features); reader and writer dispatch on the same suffix list (.pq/.parquet -> Parquet, everything else CSV); "
+    "rounding to p decimals moves a value by at most 10^-p/2. Tie: _CSV_COLUMNS, the to_dataframe dict order and both suffix "
+    "lists are regenerated from source; real to_dataframe/from_dataframe column lists (incl. collisions), to_file/from_file "
+    "dispatch over 12 suffixes and the CSV text of float columns for precisions 1..7 are compared inside Coq. Value round trips "
+    "through real CSV/Parquet files (dtypes incl. nulls/strings/bools, angles near 0 and pi, wide positions): oracle.",
+    "regenerated anchors + Coq list/Q theorems + in-Coq correspondence")
 NOT_YET = "machinery for this property is not built yet in this revision (see DESIGN.md §6 for the planned model)"
 
 def main():
